@@ -43,7 +43,7 @@ func customShape(rng *rand.Rand, np *v1.NodePool) string {
 	}
 	x := rng.Intn(100)
 	switch {
-	case x < 16: // narrow integer range with holes: Gt a, Lt b, NotIn inside
+	case x < 14: // narrow integer range with holes: Gt a, Lt b, NotIn inside
 		dropKey(gen.LabelTier)
 		a := rng.Intn(4)
 		b := a + 2 + rng.Intn(4)
@@ -62,6 +62,16 @@ func customShape(rng *rand.Rand, np *v1.NodePool) string {
 			return "tier:Gt+Lt+NotIn"
 		}
 		return "tier:Gt+Lt"
+	case x < 17: // a range whose every value is excluded: accepted by validation, admits no node at all
+		dropKey(gen.LabelTier)
+		a := rng.Intn(4)
+		b := a + 2 + rng.Intn(3)
+		var all []string
+		for v := a + 1; v < b; v++ {
+			all = append(all, fmt.Sprint(v))
+		}
+		add(gen.R(gen.LabelTier, corev1.NodeSelectorOpGt, fmt.Sprint(a)), gen.R(gen.LabelTier, corev1.NodeSelectorOpLt, fmt.Sprint(b)), gen.R(gen.LabelTier, corev1.NodeSelectorOpNotIn, all...))
+		return "tier:range-fully-excluded"
 	case x < 22: // Gte / Lte range with holes
 		dropKey(gen.LabelTier)
 		a := rng.Intn(3)
@@ -132,14 +142,25 @@ func customShape(rng *rand.Rand, np *v1.NodePool) string {
 		}
 		return "tier:label(+req)"
 	case x < 68: // template label contradicting a requirement on the same key (accepted by validation)
-		dropKey(gen.LabelTeam)
-		setLabel(gen.LabelTeam, "red")
-		if rng.Intn(2) == 0 {
+		switch rng.Intn(4) {
+		case 0:
+			dropKey(gen.LabelTeam)
+			setLabel(gen.LabelTeam, "red")
 			add(gen.R(gen.LabelTeam, corev1.NodeSelectorOpIn, "blue"))
-		} else {
+		case 1:
+			dropKey(gen.LabelTeam)
+			setLabel(gen.LabelTeam, "red")
 			add(gen.R(gen.LabelTeam, corev1.NodeSelectorOpNotIn, "red"))
+		case 2:
+			dropKey(gen.LabelTeam)
+			setLabel(gen.LabelTeam, "red")
+			add(gen.R(gen.LabelTeam, corev1.NodeSelectorOpDoesNotExist))
+		default:
+			dropKey(gen.LabelTier)
+			setLabel(gen.LabelTier, "1")
+			add(gen.R(gen.LabelTier, corev1.NodeSelectorOpGt, "3"))
 		}
-		return "team:label-contradicts-requirement"
+		return "label-contradicts-requirement"
 	case x < 74:
 		dropKey(gen.LabelTeam)
 		add(gen.R(gen.LabelTeam, corev1.NodeSelectorOpNotIn, pick(rng, []string{"red"}, []string{"red", "blue"})...))
@@ -156,6 +177,16 @@ func customShape(rng *rand.Rand, np *v1.NodePool) string {
 		t.Spec.Requirements = gen.ExoticRequirements(rng, 3)
 		t.Labels = nil
 		return "exotic"
+	case x < 94: // bound + exclusion on a well-known integer key (what static pools hand to the provider un-narrowed)
+		k := pick(rng, gen.LabelGen, gen.LabelSize)
+		dropKey(k)
+		if k == gen.LabelGen {
+			a := rng.Intn(3)
+			add(gen.R(k, corev1.NodeSelectorOpGt, fmt.Sprint(a)), gen.R(k, corev1.NodeSelectorOpNotIn, fmt.Sprint(a+1+rng.Intn(3)), fmt.Sprint(a+1+rng.Intn(4))))
+		} else {
+			add(gen.R(k, v1.NodeSelectorOpLte, pick(rng, "8", "16")), gen.R(k, corev1.NodeSelectorOpNotIn, pick(rng, "1", "2", "4", "8")))
+		}
+		return "wellknown-int:bound+NotIn"
 	}
 	return "plain"
 }
@@ -168,6 +199,9 @@ func decorate(rng *rand.Rand, np *v1.NodePool) {
 			t.Labels = map[string]string{}
 		}
 		t.Labels[labelStatic] = pick(rng, "v", "w")
+	}
+	if rng.Intn(12) == 0 { // an alias key Karpenter normalizes (beta zone label)
+		t.Spec.Requirements = append(t.Spec.Requirements, gen.R(corev1.LabelFailureDomainBetaZone, corev1.NodeSelectorOpIn, gen.Zones...))
 	}
 	if rng.Intn(4) == 0 { // a well-known key as template label
 		if t.Labels == nil {
